@@ -15,6 +15,12 @@
 //   n1 <id> <cx> <cy> <w> <h>            Node::getCentre(), Node::getDimensions()
 //   e1 <eid> <srcId> <tgtId> <npts> x y x y ...     Edge::getRoute() (may be empty)
 //   sep <src> <tgt> <xgt> <ygt> <xst> <yst> <xgap> <ygap>    every SepPair of the returned SepMatrix
+//   routepad <p>                         padding (added to w and h) the nodes carry while the last libavoid routing runs:
+//                                        0.75*nodePaddingScalar*IEL (hola.cpp: nodePadding - nodePaddingLayer1), whole-tree case: all of it
+//   fseg <dim> <conn> <low> <high> <pos> <min> <max> <endsInShape> <unifying>
+//                                        (nudging hook of /repo, if present) every SHIFTABLE first/last segment of the regions
+//                                        formed with nudgeOrthogonalSegmentsConnectedToShapes on: its ends (pos,low),(pos,high)
+//                                        [dim 0: pos = x] before solving and its limits minSpaceLimit / maxSpaceLimit
 //   END
 #include "common.h"
 #include <map>
@@ -31,6 +37,7 @@
 #include "libdialect/graphs.h"
 #include "libdialect/opts.h"
 #include "libdialect/hola.h"
+#include "libavoid/orthogonal.h"
 
 using namespace dialect;
 
@@ -43,6 +50,30 @@ template <typename T, typename T::type M> struct Rob { friend typename T::type g
 template struct Rob<Tag, &SepMatrix::m_sparseLookup>;
 }
 static const rob::SepLookup &sepLookup(SepMatrix &m) { return m.*get(rob::Tag()); }
+
+// ---- nudging hook (guarded hook H1 of /repo, see harness/c10_regions.h): collect the shiftable final segments
+#ifdef ADAPTAGRAMS_VERIF_NUDGE_HOOK
+struct FSeg { size_t dim; unsigned conn; double low, high, pos, mn, mx; bool ends, unifying; };
+static std::vector<FSeg> g_fsegs;
+static void fsegSink(const Avoid::VerifNudgeRegion &g) {
+    if (!g.nudgeFinalSegments) return;
+    for (const Avoid::VerifNudgeSegment &sg : g.segments)
+        if (sg.finalSegment && !sg.fixed)
+            g_fsegs.push_back({g.dimension, sg.connId, sg.low, sg.high, sg.pos, sg.minSpaceLimit, sg.maxSpaceLimit, sg.endsInShape, g.justUnifying});
+}
+static void armHook() { g_fsegs.clear(); Avoid::verifNudgeRegionSink = &fsegSink; }
+static void disarmHook() { Avoid::verifNudgeRegionSink = nullptr; }
+static void dumpHook() {
+    for (const FSeg &f : g_fsegs)
+        printf("fseg %zu %u %s %s %s %s %s %d %d\n", f.dim, f.conn, vh::hx(f.low).c_str(), vh::hx(f.high).c_str(), vh::hx(f.pos).c_str(),
+               vh::hx(f.mn).c_str(), vh::hx(f.mx).c_str(), (int) f.ends, (int) f.unifying);
+    g_fsegs.clear();
+}
+#else
+static void armHook() {}
+static void disarmHook() {}
+static void dumpHook() {}
+#endif
 
 // ---- LeakSanitizer: the clean tree leaks in four libdialect functions on every non-trivial doHOLA() call
 // (cola constraint objects of ACALayout, the root cluster of Graph::destress, SepCo constraints). Leaks are
@@ -340,14 +371,23 @@ static void runOne(long k, const std::string &tag, const AG &g, const std::vecto
     fflush(stdout);
     // ---- the call
     bool threw = false;
+    // padding the nodes carry during the last routing, computed with the library's own double expressions
+    double iel0 = G.getIEL();
+    double nodePadding = opts.nodePaddingScalar * iel0;
+    double nodePaddingLayer1 = 2 * 0.125 * nodePadding;          // hola.cpp: preRoutingGapIELScalar = 0.125
+    bool wholeTree = connected(g) && (int) g.es.size() + 1 == n;
+    double routePad = wholeTree ? nodePadding : nodePadding - nodePaddingLayer1;
+    armHook();
     try {
         doHOLA(G, opts);
     } catch (std::exception &ex) {
         std::string w = ex.what(); for (char &ch : w) if (ch == '\n' || ch == '\r') ch = ' ';
         printf("threw %s\n", w.c_str()); threw = true;
     }
+    disarmHook();
     printf("done\n");
     if (!threw) {
+        printf("routepad %s\n", vh::hx(routePad).c_str());
         printf("iel %s\n", vh::hx(G.getIEL()).c_str());
         printf("extrabdry %s\n", vh::hx(G.getSepMatrix().getExtraBdryGap()).c_str());
         for (auto &p : G.getNodeLookup()) {
@@ -366,6 +406,7 @@ static void runOne(long k, const std::string &tag, const AG &g, const std::vecto
             printf("sep %u %u %d %d %d %d %s %s\n", sp.src, sp.tgt, (int) sp.xgt, (int) sp.ygt, (int) sp.xst, (int) sp.yst,
                    vh::hx(sp.xgap).c_str(), vh::hx(sp.ygap).c_str());
         }
+        dumpHook();
     }
     vh::endCase();
 }
